@@ -504,6 +504,57 @@ func c06Corner(w *mc.Worker) {
 			})
 		})
 	})
+	// the same on the source side: an ill-formed source allotment listed after sources that already
+	// cover the amount (or under a cap of zero, or with nothing to send)
+	w.Stage("unreached-bad-sum-source", "a source allotment whose portions do not add up to one, placed where nothing is asked of it (after @world / after an account that covers the amount, under max 0, amount 0), totals 0..12", func() {
+		bad := [][]string{{"1/2", "1/4"}, {"1/2", "2/3"}, {"1/3"}, {"$p", "1/2"}}
+		w.Outer("unreached-bad-sum-source/shape", 0, func(o *mc.Explorer) {
+			v := bad[o.Choose(len(bad))]
+			shape := o.Choose(4)
+			inner := &gen.SrcAllot{}
+			for i, t := range v {
+				inner.Items = append(inner.Items, &gen.SrcAllotItem{A: allotOf(t), From: &gen.SrcOverdraft{Addr: gen.Acct(fmt.Sprintf("n%d", i))}})
+			}
+			var src gen.Source
+			switch shape {
+			case 0: // { @world {bad} }
+				src = lst(sa("world"), inner)
+			case 1: // { @rich {bad} }   (rich holds 100)
+				src = lst(sa("rich"), inner)
+			case 2: // { max 0 from {bad} @world }
+				src = lst(&gen.SrcCapped{Cap: gen.Mon("COIN", "0"), From: inner}, sa("world"))
+			default: // { @rich max 5 from {bad} @world }
+				src = lst(sa("rich"), &gen.SrcCapped{Cap: gen.Mon("COIN", "5"), From: inner}, sa("world"))
+			}
+			prog := &gen.Program{Vars: []*gen.VarDecl{{Type: &gen.TypeName{Name: "monetary"}, Name: gen.V("m")}},
+				Stmts: []gen.Stmt{&gen.Send{Sent: &gen.SentLit{E: gen.V("m")}, Src: src, Dst: &gen.DstAccount{E: gen.Acct("x")}}}}
+			vars := map[string]string{}
+			for _, n := range usedVars(prog) {
+				if n == "p" {
+					prog.Vars = append(prog.Vars, &gen.VarDecl{Type: &gen.TypeName{Name: "portion"}, Name: gen.V("p")})
+					vars["p"] = "1/4"
+				}
+			}
+			text := gen.Text(prog)
+			if !w.Mine(text) {
+				return
+			}
+			w.Owned()
+			pr, ok := mustParse(w, text)
+			if !ok {
+				return
+			}
+			w.Inner(0, func(in *mc.Explorer) {
+				total := int64(in.Choose(13))
+				vars["m"] = fmt.Sprintf("COIN %d", total)
+				out := RunReal(pr, vars, env.New(env.Exact, env.Bal{"rich": {"COIN": bi(100)}}, nil), nil)
+				w.Eval(fmt.Sprint(text, total), true, "unreached-bad-sum-source:"+out.Class())
+				if out.Panic == "" && out.ErrType != ref.EAllotmentSum {
+					w.Violation("C06.bad-sum-not-rejected:unreached-source:"+out.Class(), "portions that do not add up to one were not rejected (the source allotment sits where nothing is asked of it)", len(text), Case{Script: text, Vars: copyVars(vars), Observed: out.Class() + " " + postingsStr(out.Postings)})
+				}
+			})
+		})
+	})
 }
 
 func copyVars(v map[string]string) map[string]string {
